@@ -8,16 +8,18 @@ from rnaverif.runner import D, HarnessError, ShardResult, run_hypothesis
 
 PROP_ID = "C13"
 LEVEL = "fault_enumeration"
-BEHAVIOURS = ["ok", "raise", "notsolved", "infeasible", "unbounded", "undefined"]
+BEHAVIOURS = ["ok", "near", "raise", "notsolved", "infeasible", "unbounded", "undefined"]
+OK_BEHAVIOURS = ("ok", "near")
 CONFIGS = ["highs", "cbc"]
 VARMODES = ["unset", "half", "garbage"]
 GRID = [(c, b, "unset") for c in CONFIGS for b in BEHAVIOURS] + [("none", "ok", "unset")]
 RULE = (
     "Fault injection at the PuLP API boundary from the harness process (no repo hook): pulp.HiGHS_CMD is replaced "
     "by a scripted class answering available()=True/False, pulp.LpSolverDefault by a scripted LpSolver or None. "
-    "A scripted solver either delegates to the real bundled CBC (ok), raises PulpSolverError, or assigns status "
+    "A scripted solver either delegates to the real bundled CBC (ok), delegates and reports the integer variables only "
+    "within the integrality tolerance as real solvers do (near: 0.999999998 for 1), raises PulpSolverError, or assigns status "
     "NotSolved/Infeasible/Unbounded/Undefined leaving the variables unset, half-set or set to garbage. For every "
-    "generated structure the complete 13-cell grid {HiGHS selected, CBC selected} x 6 behaviours + {no solver} is "
+    "generated structure the complete 15-cell grid {HiGHS selected, CBC selected} x 7 behaviours + {no solver} is "
     "enumerated through BpSeq.dot_bracket (fresh object per cell) and through convert_to_dot_bracket(solver); then "
     "a drawn fault sequence of 1-4 steps is run on ONE shared scripted solver. Oracle: never raises; result passes "
     "the C01 lossless oracle; faulty step => structure == FCFS of a fresh object; ok step => C02 optimal score. "
@@ -51,6 +53,14 @@ def _make_scripted(pulp):
             self.calls += 1
             if beh == "ok":
                 return self.real.actualSolve(lp)
+            if beh == "near":
+                # a normal return whose integer variables are integral only within the usual MILP integrality
+                # tolerance (1e-6), as HiGHS and CBC report them: 0.999999998 for 1, 1e-9 for 0
+                status = self.real.actualSolve(lp)
+                for v in lp.variables():
+                    if v.varValue is not None:
+                        v.varValue = v.varValue * (1 - 2e-9) + 1e-9
+                return status
             if beh == "raise":
                 raise pulp.PulpSolverError("injected solver failure")
             status = {"notsolved": pulp.LpStatusNotSolved, "infeasible": pulp.LpStatusInfeasible,
@@ -158,7 +168,7 @@ def oracle(case) -> list:
             # the injected solver was not the one used: the fault did not happen, judge losslessness only
             notes.append(f"{tag}: scripted solver consulted {calls}x for {len(steps)} requests")
         for (beh, _), db in zip(steps, results):
-            faulty = config == "none" or beh != "ok"
+            faulty = config == "none" or beh not in OK_BEHAVIOURS
             if not consulted:
                 ds = [D(d.sig.replace("C01:", "C13:"), d.what) for d in check_notation(tag, db, seq, pairs)]
             else:
@@ -184,10 +194,10 @@ def classify(case):
     st, g, comps = ssref.describe(seq, [tuple(p) for p in pairs])
     labs = ["knotted" if comps else "nested"]
     script = case.get("script", [])
-    faulty = [s for s in script if s[1] != "ok"]
+    faulty = [s for s in script if s[1] not in OK_BEHAVIOURS]
     if len(script) >= 2:
         labs.append("sequence>=2")
-    if faulty and any(s[1] == "ok" for s in script):
+    if faulty and any(s[1] in OK_BEHAVIOURS for s in script):
         labs.append("sequence-mixes-ok-and-fault")
     for s in script:
         labs.append(f"beh:{s[1]}")
@@ -222,7 +232,7 @@ def run_shard(spec) -> ShardResult:
 
 def coverage_extra(tier):
     return {"grid": [list(x[:2]) for x in GRID],
-            "explanation": "the 13-cell configuration x behaviour grid is enumerated completely for every generated structure, through both entry points"}
+            "explanation": "the 15-cell configuration x behaviour grid is enumerated completely for every generated structure, through both entry points"}
 
 
 def replay(case):
